@@ -27,7 +27,7 @@ package v2
 // every non-null matcher (assumed), but skips null matchers: a null entry is answered with an error (a genuine panic
 // was repaired, see known_findings.txt), never dereferenced.
 //@ func PostableSilenceToProto
-//@   props C12
+//@   props C12 C16 C02
 //@   requires s != nil
 //@   assumes s.StartsAt != nil && s.EndsAt != nil && s.Comment != nil && s.CreatedBy != nil
 //@   assumes forall i int :: 0 <= i && i < len(s.Matchers) && s.Matchers[i] != nil ==> s.Matchers[i].Name != nil && s.Matchers[i].Value != nil
@@ -35,6 +35,12 @@ package v2
 //@   ensures [otherwise-converted] (forall i int :: 0 <= i && i < len(s.Matchers) ==> s.Matchers[i] != nil) ==> result1 == nil && result0 != nil && fresh(result0)
 //@             && len(result0.MatcherSets) == 1 && result0.MatcherSets[0] != nil && len(result0.MatcherSets[0].Matchers) == len(s.Matchers) && result0.Id == s.ID
 //@   loop 1 invariant rangeindex < len(s.Matchers) && fresh(matcherSet) && fresh(sil) && (matcherSet.Matchers == nil || fresh(matcherSet.Matchers)) && len(matcherSet.Matchers) == rangeindex + 1 && (forall k int :: 0 <= k && k <= rangeindex ==> s.Matchers[k] != nil) && sil.Id == s.ID && len(sil.MatcherSets) == 0
+//@   ensures [matchers-stored-verbatim-in-order] result1 == nil ==> (forall i int :: 0 <= i && i < len(s.Matchers) ==> result0.MatcherSets[0].Matchers[i] != nil
+//@             && result0.MatcherSets[0].Matchers[i].Name == deref(s.Matchers[i].Name) && result0.MatcherSets[0].Matchers[i].Pattern == deref(s.Matchers[i].Value))
+//@   ensures [comment-and-author-verbatim] result1 == nil ==> result0.Comment == deref(s.Comment) && result0.CreatedBy == deref(s.CreatedBy)
+//@   loop 1 invariant forall k int :: 0 <= k && k < len(matcherSet.Matchers) ==> matcherSet.Matchers[k] != nil && fresh(matcherSet.Matchers[k])
+//@             && matcherSet.Matchers[k].Name == deref(s.Matchers[k].Name) && matcherSet.Matchers[k].Pattern == deref(s.Matchers[k].Value)
+//@   loop 1 invariant sil.Comment == deref(s.Comment) && sil.CreatedBy == deref(s.CreatedBy)
 //@   noeffect timestamppb.New
 //@   assigns nothing
 
